@@ -36,7 +36,11 @@ def blkOfJson (j : Json) : Option Blk := do
   let lo ← (getObj j "lo").bind sideOfJson
   let hi ← (getObj j "hi").bind sideOfJson
   let mode ← getNat j "mode"
-  pure { size, times, scalarT, nom, lo, hi, mode }
+  -- optional: the pair (lo, hi) is what the user gave under an alias; "negAlias" = the alias is negated
+  let b : Blk := { size, times, scalarT, nom, lo, hi, mode }
+  pure (match getBool j "negAlias" with
+    | some neg => b.underAlias neg
+    | none => b)
 
 def optRat (j : Json) : Option (Option Rat) :=
   match j with
